@@ -4,7 +4,7 @@ import ast
 import math
 from fractions import Fraction as Fr
 
-from .absval import (Undecided, Term, OrderVal, Opaque, Vec, NRows, FVal, FStr, DF, GA, Row, Ret, Brk, Cont, Raised,
+from .absval import (NAN, Undecided, Term, OrderVal, Opaque, Vec, NRows, FVal, FStr, DF, GA, Row, Ret, Brk, Cont, Raised,
                      Closure, Module, ClassRef, BoundMethod, T, num, t_add, t_sub, t_mul, t_div, t_neg, fatom, f_exp2,
                      f_log2, f_ceil, f_floor, f_round, f_trunc, f_abs, f_sqrt, f_max, f_min, same, canon_atom, W, INF)
 
@@ -96,7 +96,7 @@ def bcast(v, n):
 
 
 def is_nan(x):
-    return (isinstance(x, OrderVal) and x.nan) or x is None or (isinstance(x, float) and x != x)
+    return (isinstance(x, OrderVal) and x.nan) or x is None or x is NAN or (isinstance(x, float) and x != x)
 
 
 PYCMP = {ast.Lt: lambda x, y: x < y, ast.LtE: lambda x, y: x <= y, ast.Gt: lambda x, y: x > y, ast.GtE: lambda x, y: x >= y,
@@ -236,6 +236,10 @@ def binop(op, a, b):
         if isinstance(a, (set, frozenset, int)) and isinstance(b, (set, frozenset, int)):
             return {ast.BitAnd: lambda x, y: x & y, ast.BitOr: lambda x, y: x | y, ast.BitXor: lambda x, y: x ^ y}[type(op)](a, b)
         raise Undecided(f"bit operation on {a!r}, {b!r}")
+    if a is NAN:
+        a = None
+    if b is NAN:
+        b = None
     if a is None or b is None:
         if is_nan(a) or is_nan(b):
             return None                                        # NaN / masked-out slot propagates
